@@ -154,7 +154,7 @@ func runUnit(bin string, u *unit, env []string) (*result, error) {
 // ln counter), imported types used from inside a union so that Validate accepts the file on its own.
 const smallMain = `import "imp.bop"
 message M { 1 -> map[string, int32] m; }
-union U { 1 -> struct B { Q q; E e; } }
+union U { 1 -> struct B { Q q; E e; E[] es; } }
 `
 
 const smallImp = `const string go_package = "example.com/c14/imp";
@@ -194,7 +194,8 @@ func mapsSchema() (main, impa, impb string) {
 				fmt.Fprintf(&b, "  %d -> message U%dM%d { 1 -> %s p; 2 -> %s q; }\n", i, n, i, types[i%len(types)], types[(i+3)%len(types)])
 			} else {
 				imported := []string{"PA", "PB", "EA", "QA", "QB"}[i%5]
-				fmt.Fprintf(&b, "  %d -> struct U%dS%d { %s v; %s imp; }\n", i, n, i, types[(i+1)%len(types)], imported)
+				// imported types also as array elements and map values (the Size() emitter resolves their aliases)
+				fmt.Fprintf(&b, "  %d -> struct U%dS%d { %s v; %s imp; %s[] imps; map[string, %s[]] impm; }\n", i, n, i, types[(i+1)%len(types)], imported, imported, imported)
 			}
 		}
 		b.WriteString("}\n")
